@@ -1,6 +1,7 @@
 (* C02 - Lookup returns a verifying proof of the latest value for every published label. *)
 From Coq Require Import List Bool NArith.
 From Akd Require Import NodeLabel Hashing Tree Directory Verify DirFacts.
+From Akd Require DirRefine NodeLabelFacts.
 Import ListNotations.
 Open Scope N_scope.
 
@@ -21,3 +22,27 @@ Theorem C02_lookup_reports_latest : forall cfg ck vl vp st l p eh,
   verify_membership cfg (snd eh) (lp_marker p) = true.
 Proof. exact lookup_ok. Qed.
 Print Assumptions C02_lookup_reports_latest.
+
+(* under non-colliding, well-formed VRF outputs every tree-related part of the proof an honest
+   directory returns verifies against the returned root hash - including the freshness part
+   (non-membership of the stale label of the current version), in every reachable state *)
+Theorem C02_tree_parts_verify : forall cfg ck (vl : bytes -> bool -> N -> option nlabel) vp,
+  canonical (c_empty_label cfg) = false ->
+  (forall l f v nl, vl l f v = Some nl -> NodeLabelFacts.WF nl /\ canonical nl = true /\ llen nl = 256) ->
+  (forall l f v l' f' v' nl, vl l f v = Some nl -> vl l' f' v' = Some nl -> l = l' /\ f = f' /\ v = v') ->
+  forall st l p eh, DirRefine.DirInv vl st -> lookup cfg ck vl vp st l = DOk (p, eh) ->
+  eh = epoch_hash cfg st /\
+  verify_membership cfg (snd eh) (lp_existence p) = true /\
+  verify_membership cfg (snd eh) (lp_marker p) = true /\
+  verify_nonmembership cfg (snd eh) (lp_freshness p) = true.
+Proof. exact DirRefine.lookup_tree_parts_verify. Qed.
+Print Assumptions C02_tree_parts_verify.
+
+(* the invariant holds in every state reachable by publish requests *)
+Theorem C02_invariant_reachable : forall cfg ck (vl : bytes -> bool -> N -> option nlabel),
+  canonical (c_empty_label cfg) = false ->
+  (forall l f v nl, vl l f v = Some nl -> NodeLabelFacts.WF nl /\ canonical nl = true /\ llen nl = 256) ->
+  (forall l f v l' f' v' nl, vl l f v = Some nl -> vl l' f' v' = Some nl -> l = l' /\ f = f' /\ v = v') ->
+  forall reqs, DirRefine.DirInv vl (DirRefine.run_publishes cfg ck vl dir_new reqs).
+Proof. exact DirRefine.invariant_reachable. Qed.
+Print Assumptions C02_invariant_reachable.
